@@ -257,6 +257,21 @@ impl ObjectStore for SimStore {
             Err(e) => self.record(op, &path, extra, false, err_kind(e), fault, None, None),
         }
         self.post(op, &path, fault).await;
+        if let Fault::BodyBreak(pct) = fault {
+            let g = r?;
+            // the request succeeded, the body stream breaks after a prefix (connection reset mid-body)
+            let meta = g.meta.clone();
+            let range = g.range.clone();
+            let attributes = g.attributes.clone();
+            let all = g.bytes().await?;
+            let cut = all.len() * pct as usize / 100;
+            let mut chunks: Vec<OsResult<Bytes>> = Vec::new();
+            if cut > 0 {
+                chunks.push(Ok(all.slice(0..cut)));
+            }
+            chunks.push(Err(Self::generic_err("body stream broke (connection reset)")));
+            return Ok(GetResult { payload: object_store::GetResultPayload::Stream(futures::stream::iter(chunks).boxed()), meta, range, attributes });
+        }
         r
     }
 
